@@ -101,6 +101,8 @@ def main():
     run = Run(PID, tier)
     from harness.lie import touch_all as _touch_all
     _touch_all()        # first uses of the Lie API happen BEFORE the models are derived (see harness/lie.py)
+    from harness import history as _history      # derivation histories in fresh interpreters (spec/DeriveHistory.tla)
+    _history.run_models(run, tier, ("rdd2:strapdown",))
     f = build()
     if "--replay" in sys.argv:
         d = json.load(open(sys.argv[sys.argv.index("--replay") + 1]))
